@@ -58,8 +58,9 @@ def cli_vectors(ctx, gate_topa):
     for g in gate_topa:
         v = {"id": "topa-gate/%s" % g["id"], "fam": "cli", "files": small, "reps": 1, "parse": "topa", "hdrlines": 0, "N": g["N"],
              "sig": "topa-stdout", "args": topa + ["-t", str(g["T"])], "base": {"args": topa + ["-t", "1"]},
-             "env": {"VHOOK_GATE": "sam.trimAlignment:" + ",".join(str(x) for x in g["order"]),
-                     "VHOOK_GATE_RECV": "sam.writePairwiseAlignment", "VHOOK_GATE_MS": "2000"}, "race": False}
+             "env": {"VHOOK_GATES": "sam.blockToPairwiseAlignment:%s:sam.trimAlignment;sam.trimAlignment:%s:sam.writePairwiseAlignment" % (
+                         ",".join(str(x) for x in g.get("order1", [])), ",".join(str(x) for x in g["order"])),
+                     "VHOOK_GATE_MS": "2000"}, "race": False}
         vecs.append(v)
     for t in ([1, 4] if quick else [1, 2, 4, 16]):
         for gmp in (["", "1"] if quick else ["", "1", "3"]):
